@@ -41,7 +41,18 @@ func newInterp(c *Ctx, w *absint.World) *absint.Interp {
 }
 
 // enumConstsOf returns the declared constants of a named type, sorted by value.
+var enumConstsMemo = map[types.Type][]*types.Const{}
+
 func enumConstsOf(t types.Type) []*types.Const {
+	if r, ok := enumConstsMemo[t]; ok {
+		return r
+	}
+	r := enumConstsOfUncached(t)
+	enumConstsMemo[t] = r
+	return r
+}
+
+func enumConstsOfUncached(t types.Type) []*types.Const {
 	n, ok := t.(*types.Named)
 	if !ok || n.Obj().Pkg() == nil {
 		return nil
